@@ -186,3 +186,35 @@ func LeafMap(prefixes []string, roots ...any) map[*big.Int]string {
 	}
 	return m
 }
+
+var powSeq int
+
+// LoadWithPowText loads the instance from a copy of its proof document in which the number after "pow_witness" was replaced textually:
+// the value reaches the assignment through the repository's own readers (types.ReadProofWithPublicInputs, variables.Deserialize...).
+func LoadWithPowText(inst Instance, k int, pow string, tmpdir string) (l *Loaded, err error) {
+	defer func() {
+		if r := recover(); r != nil {
+			l, err = nil, fmt.Errorf("%v", r)
+		}
+	}()
+	b, err := os.ReadFile(inst.Proof)
+	if err != nil {
+		return nil, err
+	}
+	re := regexp.MustCompile(`"pow_witness"\s*:\s*\d+`)
+	if !re.Match(b) {
+		return nil, fmt.Errorf("no pow_witness in %s", inst.Proof)
+	}
+	nb := re.ReplaceAll(b, []byte(`"pow_witness": `+pow))
+	powSeq++
+	path := fmt.Sprintf("%s/pow-%s-%s-%d-%d.json", tmpdir, inst.Name, pow, os.Getpid(), powSeq) // (several drivers share the directory)
+	if err := os.WriteFile(path, nb, 0644); err != nil {
+		return nil, err
+	}
+	defer os.Remove(path)
+	i2 := inst
+	i2.Proof = path
+	l = Load(i2, k)
+	delete(rawCache, path)
+	return l, nil
+}
